@@ -245,6 +245,11 @@ func main() {
 			cf.Items[len(cf.Items)-1] = fmt.Sprintf("CWMul %s %s %s", parts[2], parts[1], parts[3])
 		}
 	}
+	weierstrassPrograms(rng.Fork(), rep, cf, &id, o, []grpprog.Inst{
+		{Name: "p256", G: p256.NewBlakeSHA256P256()},
+		{Name: "bn256.G1", G: bn256.NewSuite().G1()},
+		{Name: "bn254.G1", G: bn254.NewSuite().G1()},
+	})
 	// ---------------------------------------------------------------- BLS12-381 back-ends
 	bl := []struct {
 		name string
@@ -344,8 +349,40 @@ func main() {
 				return sg
 			}, ctx)
 		}
+		// non-default domain separation tags: kilic takes them per suite, circl and gnark per call
+		dst1, dst2 := r.Bytes(1+r.Intn(48)), r.Bytes(1+r.Intn(48))
+		ks := kilic.NewBLS12381SuiteWithDST(dst1, dst2)
+		type h2 interface {
+			Hash2(msg, dst []byte) kyber.Point
+		}
+		for gi, dst := range [][]byte{dst1, dst2} {
+			grp := func(s pairing.Suite) kyber.Group {
+				if gi == 0 {
+					return s.G1()
+				}
+				return s.G2()
+			}
+			want := enc(grp(bl[1].s).Point().(h2).Hash2(msg, dst))
+			got := map[string][]byte{
+				"gnark Hash2":                      enc(grp(bl[2].s).Point().(h2).Hash2(msg, dst)),
+				"kilic WithDST fresh point":        enc(grp(ks).Point().(interface{ Hash([]byte) kyber.Point }).Hash(msg)),
+				"kilic WithDST Base().Clone()":     enc(grp(ks).Point().Base().Clone().(interface{ Hash([]byte) kyber.Point }).Hash(msg)),
+				"kilic WithDST Null().Set(Base())": enc(grp(ks).Point().Null().Set(grp(ks).Point().Base()).(interface{ Hash([]byte) kyber.Point }).Hash(msg)),
+				"kilic WithDST Mul result":         enc(grp(ks).Point().Mul(grpprog.MkScalar(ks.G1(), k2), nil).(interface{ Hash([]byte) kyber.Point }).Hash(msg)),
+				"kilic WithDST Clone of Clone":     enc(grp(ks).Point().Clone().Clone().(interface{ Hash([]byte) kyber.Point }).Hash(msg)),
+			}
+			for how, b := range got {
+				rep.Dist(fmt.Sprintf("bls12381:hashG%d-custom-dst", gi+1))
+				if !bytes.Equal(b, want) {
+					rep.Fail(fmt.Sprintf("C18/bls12381/hashG%d-custom-dst-differs", gi+1), "BLS12-381 back-ends disagree on hash-to-curve under a non-default domain separation tag",
+						map[string]string{"how": how, "msg": vh.Hex(msg), "dst": vh.Hex(dst), "got": vh.Hex(b), "circl Hash2": vh.Hex(want)})
+				}
+			}
+		}
 		rep.Count("bls12381/"+k.String()+"/"+vh.Hex(msg), true)
 	}
+	// ---------------------------------------------------------------- whole programs on every implementation
+	programAgreement(rng.Fork(), rep, o)
 	// ---------------------------------------------------------------- build variants
 	variants(o, rep)
 	vh.WriteShards(o.Out, "c18", cf, 2, rep)
